@@ -204,7 +204,9 @@ impl Iterator for HeaderIter {
 impl TryFrom<Vec<HeaderField>> for Header {
     type Error = HeaderError;
     fn try_from(headers: Vec<HeaderField>) -> Result<Self, Self::Error> {
-        let mut fields = HeaderMap::with_capacity(headers.len());
+        // `HeaderMap` panics beyond its maximum size: the number of fields is chosen by the peer
+        let mut fields = HeaderMap::try_with_capacity(headers.len())
+            .map_err(|e| HeaderError::InvalidRequest(e.into()))?;
         let mut pseudo = Pseudo::default();
 
         for field in headers.into_iter() {
@@ -231,7 +233,9 @@ impl TryFrom<Vec<HeaderField>> for Header {
                     pseudo.len += 1;
                 }
                 Field::Header((n, v)) => {
-                    fields.append(n, v);
+                    fields
+                        .try_append(n, v)
+                        .map_err(|e| HeaderError::InvalidRequest(e.into()))?;
                 }
                 Field::Protocol(p) => {
                     pseudo.protocol = Some(p);
